@@ -6,6 +6,8 @@ import json, subprocess, sys, os, re, shutil
 muts = json.load(open(sys.argv[1]))
 only = sys.argv[2] if len(sys.argv) > 2 else None
 env = dict(os.environ, GOFLAGS="-mod=mod", GOPROXY="off", GOSUMDB="off", GOTOOLCHAIN="local")
+if subprocess.run(["git", "-C", "/repo", "status", "--porcelain", "--untracked-files=all"], capture_output=True, text=True).stdout.replace(" M data/multivariate-metrics.json\n", "").replace(" M data/multivariate-metrics.pb\n", "").strip():
+    print("REFUSING: /repo has uncommitted changes; commit them first"); sys.exit(2)
 bad = 0
 # the checks rewrite evidence files: keep the clean-tree evidence
 shutil.rmtree("/tmp/evidence_backup", ignore_errors=True)
